@@ -37,9 +37,12 @@
   Not modelled (see props/C18.json): `reflect` itself (it is the parameter of the model: MakeSlice, SetMapIndex, Set,
   settable-ness behave as the Go documentation says), struct types that were never registered (plain-struct-hash) or
   are derived anonymously, the registry-mapped path (FromReflectedValue / ToReflectedValue of declared types), a struct
-  field that is itself an interface{} (Runtime fall-back value), an embedded POINTER to a struct, fields that shadow a
+  field that is itself an interface{} and holds a struct / pointer to a struct (every other content IS modelled: a
+  Runtime value, `Val.rt`), an embedded POINTER to a struct, fields that shadow a
   field of an embedded struct, tag forms outside name / value / type / kind over the literal and type grammar below,
-  interface{} holding anything but a scalar, map keys other than integers, strings and booleans, named types, NaN payloads.
+  an interface{} that reaches `wrap`'s type switch holding anything but a scalar (containers come back with a Go type that
+  Array.Reflect / Hash.ReflectTo INFER from the pcore value's type — implementation only, two known findings), map keys
+  other than integers, strings and booleans, named types, NaN payloads.
   Strings are valid UTF-8.  Core-only file (linked into the driver).
 -/
 namespace Pcore.Reflect
@@ -103,6 +106,8 @@ inductive Val where
   /-- an instance of the object type derived from the struct type `S` (a `reflectedObject`): it HOLDS the Go value —
       the struct `g` itself (`isPtr = false`) or the pointer to it (`isPtr = true`) -/
   | obj (S : GoTy) (isPtr : Bool) (g : GoVal)
+  /-- a Runtime value (`WrapRuntime`): it holds a Go value of the dynamic type `t` verbatim -/
+  | rt (t : GoTy) (g : GoVal)
   deriving Repr, Inhabited
 
 /-- pcore types (the forms `wrapReflectedType` produces) -/
@@ -207,9 +212,8 @@ def Modelled : GoTy → Bool
   | .map k v => keyTy k && Modelled v
   | .ptr e => (match e with | .ptr _ => false | .iface => false | _ => true) && Modelled e
   | .snil => true
-  -- an embedded field is a struct; a field that is itself an interface{} wraps to a Runtime value (not modelled)
-  | .scons _ tg ft rest => isStruct rest && (!tg.anon || isStruct ft) && (match ft with | .iface => false | _ => true) &&
-      Modelled ft && Modelled rest
+  -- an embedded field is a struct
+  | .scons _ tg ft rest => isStruct rest && (!tg.anon || isStruct ft) && Modelled ft && Modelled rest
 
 def strLt (a b : String) : Bool := decide (a < b)
 
@@ -233,6 +237,15 @@ def scalarHasType : GoTy → GoVal → Bool
   | .bool, .bool _ => true
   | _, _ => false
 
+/-- a struct FIELD of type interface{} (it reaches `wrapReflected` as a reflect.Value of kind Interface, not `wrap`'s type
+    switch): nil, or any Go value whose dynamic type is not a struct / pointer to a struct (those are objects when their
+    type happens to be registered: outside the model).  What it holds is kept verbatim in a Runtime value, so nothing is
+    demanded of it. -/
+def ifaceField : GoVal → Bool
+  | .nil => true
+  | .iface t _ => !isStruct t && (match t with | .ptr e => !isStruct e | .iface => false | _ => true)
+  | _ => false
+
 def hasType : GoTy → GoVal → Bool
   | .int w, v => scalarHasType (.int w) v
   | .uint w, v => scalarHasType (.uint w) v
@@ -255,8 +268,15 @@ def hasType : GoTy → GoVal → Bool
   | .ptr _, _ => false
   | .snil, .st [] => true
   | .snil, _ => false
-  | .scons _ _ ft rest, .st (v :: vs) => hasType ft v && hasType rest (.st vs)
+  | .scons _ _ ft rest, .st (v :: vs) =>
+      (match ft with | .iface => ifaceField v | _ => hasType ft v) && hasType rest (.st vs)
   | .scons _ _ _ _, _ => false
+
+/-- typing of a struct FIELD (the `scons` arm of `hasType`) -/
+def fieldHasType (ft : GoTy) (v : GoVal) : Bool :=
+  match ft with
+  | .iface => ifaceField v
+  | _ => hasType ft v
 
 /-! ### Go → pcore value -/
 
@@ -304,7 +324,9 @@ def wrap (via : Bool) : GoTy → GoVal → Val
   | .float w, v => wrapScalar (.float w) v
   | .string, v => wrapScalar .string v
   | .bool, v => wrapScalar .bool v
-  | .iface, .iface t v => wrapScalar t v
+  -- through `wrap`'s type switch the dynamic type decides (scalars: modelled); as a struct field (`wrapReflected`, kind
+  -- Interface) the value falls through to `WrapRuntime(vr.Interface())`
+  | .iface, .iface t v => if via then wrapScalar t v else .rt t v
   | .iface, _ => .undef
   | .slice e, .nil =>
       if via && e = .uint 8 then .bin true []
@@ -424,13 +446,19 @@ def mapOf (l : List (GoVal × GoVal)) : List (GoVal × GoVal) :=
 /-- `Reflector.ReflectTo(src, dest)` for a fresh settable `dest` of type `ty`; `none` = the call panics.
     `r32` is Go's float64 → float32 → float64 conversion on bits (trusted parameter). -/
 def reflectTo (r32 : Nat → Nat) : GoTy → Val → Option GoVal
+  -- runtimetype.go RuntimeValue.Reflect / ReflectTo: into interface{} the held value with its dynamic type; into any other
+  -- destination only when the Go types are identical (`gt.AssignableTo(dest.Type())`)
+  | ty, .rt t g => if ty = .iface then some (.iface t g) else if ty = t then some g else none
   -- interface{}: `dest.Set(src.Reflect(c))`; undef reflects to the invalid Value → nil interface
   | .iface, .int i => some (.iface (.int 64) (.int i))
   | .iface, .flt b => some (.iface (.float 64) (.flt b))
   | .iface, .str s => some (.iface .string (.str s))
   | .iface, .bool b => some (.iface .bool (.bool b))
   | .iface, .undef => some .nil
-  | .iface, _ => none          -- Binary / Array / Hash into interface{}: not modelled (never produced from a modelled value)
+  -- objectvalue.go reflectedObject.Reflect: the struct (or the pointer) the object holds
+  | .iface, .obj S p g => some (if p then .iface (.ptr S) (.ptr g) else .iface S g)
+  | .iface, _ => none          -- Binary / Array / Hash into interface{}: the Go type is INFERRED from the value's type
+                               -- (Array.Reflect → ReflectType(PType())): not modelled, implementation only (@refl)
   | .int w, .int i => some (.int (truncS (bitsOf w) i))
   | .int _, .undef => some (.int 0)
   | .int _, _ => none
@@ -489,7 +517,7 @@ def reflectTo (r32 : Nat → Nat) : GoTy → Val → Option GoVal
     * a non-nil pointer to a nil slice / map (comes back as a nil pointer),
     * an interface{} holding anything but int64 / float64 / string / bool (comes back as int64 / float64). -/
 def RtOK (via : Bool) : GoTy → GoVal → Bool
-  | .iface, .iface t _ => t = .int 64 || t = .float 64 || t = .string || t = .bool
+  | .iface, .iface t _ => !via || t = .int 64 || t = .float 64 || t = .string || t = .bool
   | .slice e, .nil => !(via && nilToEmptySlice e)
   | .slice e, .slice es => es.all (RtOK true e)
   | .array _ e, .arr es => es.all (RtOK true e)
@@ -684,8 +712,7 @@ def Lit.noNaN : Lit → Bool
     accepts (attribute.go: the type derivation asserts it; so integers only on integer fields within the width's range,
     arrays on slices / Go arrays, string-keyed hashes on maps, undef only on pointers …) -/
 def flatField (f : Field) : Bool :=
-  Modelled f.ty && (match f.ty with | .iface => false | _ => true) &&
-  (match f.dflt with | some d => d.noNaN && inst f.aty d.toVal | none => true)
+  Modelled f.ty && (match f.dflt with | some d => d.noNaN && inst f.aty d.toVal | none => true)
 
 /-! ### struct types as terms: fields, tags, embedding
 
